@@ -11,7 +11,7 @@ use crate::forkrun::{run_forked, ChildFail};
 use crate::ops::{Obs, Op};
 use crate::plan::{Call, CallOut, Outcome, Plan, Sched};
 
-pub const CHILD_TIMEOUT_MS: i32 = 60_000;
+pub const CHILD_TIMEOUT_MS: i32 = 30_000;
 
 /// The canonical form of an operation: what the reference context executes.
 pub fn canon_op(op: &Op) -> Op {
@@ -317,15 +317,91 @@ pub fn check_outcome(plan: &Plan, out: &Outcome, refs: &mut RefTable) -> CheckRe
     res
 }
 
+fn execution_violation(element: &str, msg: String) -> Violation {
+    let dummy = Op::SetEnv { value: None };
+    let mut v = mk_violation(
+        "execution",
+        usize::MAX,
+        0,
+        &dummy,
+        &Obs::ok("every call returns and the process survives".into()),
+        &Obs::noreturn(msg),
+    );
+    v.element = element.to_string();
+    v.op_kind = "execution".into();
+    v
+}
+
+/// Does every operation of the plan survive (and return from) its own reference context?
+fn refs_all_alive(plan: &Plan, refs: &mut RefTable) -> bool {
+    let mut env = plan.env_before.clone();
+    let mut alive = true;
+    for c in plan.threads.iter().flatten().chain(plan.sentinel.iter()) {
+        if let Op::SetEnv { value } = &c.op {
+            env = value.clone();
+            continue;
+        }
+        if refs.get(&c.op, &env).is_none() {
+            alive = false;
+        }
+    }
+    alive
+}
+
 /// Run a plan in a pristine child and judge it. Err = harness-level failure.
+///
+/// A child that dies (signal) or never finishes is an outcome of the *code* when every
+/// operation survives its reference context and it happens again on re-execution:
+/// `process-abort`, or — for sequential plans only — `no-return`. In shuttle mode the sole
+/// OS thread can also block because of a blocking primitive the shadow locks do not model,
+/// which is a limit of the harness, so a timeout there stays a harness error.
 pub fn run_and_check(plan: &Plan, refs: &mut RefTable) -> Result<(Outcome, CheckResult), String> {
     match run_forked(plan, CHILD_TIMEOUT_MS) {
         Ok(out) => {
             let res = check_outcome(plan, &out, refs);
             Ok((out, res))
         }
-        Err(ChildFail::Timeout) => Err("watchdog: child did not finish (unmodelled blocking primitive or runaway)".into()),
-        Err(ChildFail::Signal(s)) => Err(format!("child killed by signal {s}")),
+        Err(ChildFail::Timeout) => {
+            if plan.shuttle {
+                return Err("watchdog: child did not finish within the time limit (unmodelled blocking primitive or runaway computation)".into());
+            }
+            let mut res = CheckResult::default();
+            if !refs_all_alive(plan, refs) {
+                res.unjudged = 1;
+                return Ok((Outcome::default(), res));
+            }
+            match run_forked(plan, CHILD_TIMEOUT_MS) {
+                Err(ChildFail::Timeout) => {
+                    res.judged = 1;
+                    res.violations.push(execution_violation(
+                        "no-return",
+                        format!("sequential execution did not finish within {CHILD_TIMEOUT_MS} ms although every call returns in its reference context"),
+                    ));
+                    Ok((Outcome::default(), res))
+                }
+                _ => Err("watchdog fired once but not on re-execution".into()),
+            }
+        }
+        Err(ChildFail::Signal(sig)) => {
+            let mut res = CheckResult::default();
+            if !refs_all_alive(plan, refs) {
+                // some operation kills the process already in its reference context
+                // (stack overflow, abort): nothing to compare
+                res.unjudged = 1;
+                return Ok((Outcome::default(), res));
+            }
+            match run_forked(plan, CHILD_TIMEOUT_MS) {
+                Err(ChildFail::Signal(s2)) if s2 == sig => {
+                    res.judged = 1;
+                    res.violations.push(execution_violation(
+                        "process-abort",
+                        format!("process killed by signal {sig} although every call survives its reference context"),
+                    ));
+                    Ok((Outcome::default(), res))
+                }
+                _ => Err(format!("child killed by signal {sig}, not reproducible")),
+            }
+        }
         Err(ChildFail::Other(e)) => Err(format!("child failed: {e}")),
     }
 }
